@@ -97,3 +97,18 @@ def _canon(s):
 
 
 CANON = {"c15.write": _canon}
+
+
+def targeted(broken_cases):
+    """the syscall sequence of a run no longer matches the model: kill that very run at every one of its file
+    operations (final, non-append runs first: that is where a half-written outfile can become visible)"""
+    seen = 0
+    for c in sorted(dict.fromkeys(broken_cases), key=lambda c: (c.split(" ")[3] != "1", "append" in bytes.fromhex(c.split(" ")[1]).decode("latin1"))):
+        f = c.split(" ")
+        if len(f) != 6 or f[5] != "0":
+            continue
+        for k in range(1, 26):
+            yield " ".join(f[:5] + [str(k)])
+        seen += 1
+        if seen >= 4:
+            break
